@@ -352,12 +352,35 @@ def rule_OR2_responder(ctx, tier):
     ups = sites(cc, DBM + "update_tracker_status")
     for u in ups:
         st = arg_origin(ctx, cc, u, 2)
-        if st[0] == "agg" and st[2] == "ConfirmedIn" and st[3][0][1] == ("param", cc.id, 3) and truth_fact(ctx, cc, u, "HashSet", "contains") is True:
+        in_block = any(f[0] == "truth" and f[2] is True and has_call(f[1], "HashSet", "contains") and ("param", cc.id, 2) in list(og.walk(f[1])) for f in facts_at(ctx, cc, u))
+        if st[0] == "agg" and st[2] == "ConfirmedIn" and st[3][0][1] == ("param", cc.id, 3) and in_block:
             rr.ok("cc: first confirmation -> ConfirmedIn(current_height)")
         else:
             rr.fail("cc:first-confirmation", "tracker status update in check_confirmations is not `ConfirmedIn(current_height)` under `txids.contains(penalty_txid)`", where=cc.line_of(u))
     if not ups:
         rr.fail("cc:no-status-update", "check_confirmations never records a first confirmation", where=cc.span)
+    # a penalty seen in this block is confirmed NOW, whatever the reorg bookkeeping says: the first-confirmation
+    # branch has priority over the reorged skip, and it clears the uuid from the reorged set
+    def _reorged_fact(bb):
+        for f in facts_at(ctx, cc, bb):
+            if f[0] == "truth" and has_call(f[1], "HashSet", "contains") and "f:reorged_trackers" in og.show(f[1]):
+                return f[2]
+        return None
+    rem = [x for x in sites_containing(cc, "HashSet", "::remove") if "f:reorged_trackers" in og.show(arg_origin(ctx, cc, x, 0))]
+    for u in ups:
+        if _reorged_fact(u) is None:
+            rr.ok("cc: first confirmation recorded regardless of the reorged flag")
+        else:
+            rr.fail("cc:confirmation-masked-by-reorg", "a penalty confirmed in this block is only recorded when the tracker is not in the reorged set: a re-confirmed reorged tracker is left for handle_reorged_txs, which stamps it InMempoolSince and it is never seen confirmed again", where=cc.line_of(u))
+        if rem and always_reaches(cc, cc.succ(u), rem, lambda x: is_iter_next(cc, x)):
+            rr.ok("cc: confirmed tracker leaves the reorged set")
+        else:
+            rr.fail("cc:confirmed-stays-reorged", "a tracker confirmed in this block is not removed from the reorged set: handle_reorged_txs will re-send it and overwrite its status", where=cc.line_of(u))
+    for p in pushes:
+        if _reorged_fact(p) is False:
+            rr.ok("cc: reorged trackers are never declared completed")
+        else:
+            rr.fail("cc:reorged-completed", "a tracker in the reorged set (stale DB status) can be declared completed", where=cc.line_of(p))
     # reorged trackers are skipped
     # rebroadcast: status threshold, send penalty, rejected -> list, else status update
     rb = P.require(RSP + "rebroadcast_stale_txs")
@@ -426,7 +449,7 @@ def rule_OR2_responder(ctx, tier):
         rr.fail("bd:not-recorded", "trackers confirmed in the disconnected block are not added to the reorged set", where=bd.span)
     wd = _must(ctx, rr, W_BD, [TXI + "remove_disconnected_block"], "Watcher::block_disconnected")
     _atomic_store_of(ctx, rr, wd, "last_known_block_height", (3, 1), "Watcher::block_disconnected")
-    rr.require_floor(34, "OR2r instances")
+    rr.require_floor(37, "OR2r instances")
     return rr
 
 
